@@ -545,7 +545,7 @@ PROPS = {
     "C22": {
         "sub": "c22",
         "level_text": "Proof: theorem C22_tracker_exact (Lean 4, no bound on the number of writes, offsets or lengths) states the property "
-                      "in full for the model of trackWrite/getRangeToRead; the model is tied to pkg/filetracker by exhaustive small-scope "
+                      "in full for the model of trackWrite/getRangeToRead, and C22_tracker_canonical / _order_independent / _idempotent show the markers depend only on the set of written offsets; the model is tied to pkg/filetracker by exhaustive small-scope "
                       "plus random differential runs of the real tracker against the compiled model.",
         "level_note": "Trusted: Lean kernel (axioms propext, Classical.choice, Quot.sound), the harness and driver, go-immutable-radix as a sorted map. "
                       "The Go code is modelled (hand-written functional model of the marker walk), not verified directly.",
